@@ -182,8 +182,13 @@ def setup_arb(cx):
         return PArr(connf(keysel(sl, I_), keysel(sl, J_)), I_ == J_, (I_, J_))
 
     def bpm(e, mol, criterion, idx_to_node, selected_nodes=None):
-        sl = to_z3(selected_nodes, TSeq(TInt))
-        return PArr(domf(keysel(sl, I_), keysel(sl, J_)), I_ == J_, (I_, J_))
+        # build_pair_matrix by its contract (proved below): entry (a, b), a before b, is the criterion's answer for the nodes
+        # idx_to_node gives for the a-th and the b-th selected index, asked in that order; symmetric; the diagonal is False
+        sl, st = to_z3(selected_nodes, TSeq(TInt)), TSeq(TInt)
+        mt = TMap(TInt, NKey)
+        me = to_z3(idx_to_node, mt)
+        ki, kj = mt.at(me, st.at(sl, I_)), mt.at(me, st.at(sl, J_))
+        return PArr(z3.If(I_ == J_, z3.BoolVal(False), z3.If(I_ < J_, domf(ki, kj), domf(kj, ki))), I_ == J_, (I_, J_))
     cx.spec_env['build_connectivity_matrix'] = Builtin(bcm, 'build_connectivity_matrix')
     cx.spec_env['build_pair_matrix'] = Builtin(bpm, 'build_pair_matrix')
     args = dict(molecule=molecule, selector=selector, domain_criterion=Obj('criterion'), res_min_dist=cx.val('res_min_dist', TInt),
@@ -279,3 +284,108 @@ apply_rubber_band = FunctionContract(
             ("if np.any(np.isnan(coordinates)):", "if np.any(np.all(np.isnan(coordinates), axis=1)):")],
 )
 CONTRACTS.append(apply_rubber_band)
+
+
+# ------------------------------------------------------------------ build_pair_matrix: the criterion, pair by pair
+Pair = TTuple(TInt, TInt)
+PairSet = TSet(Pair)
+
+
+def _pair(a, b):
+    return Pair.mk(to_z3(a, TInt), to_z3(b, TInt))
+
+
+def setup_bpm(cx):
+    from pyvc.builtins import _int as _i_
+    from pyvc.values import IterV
+    st = TSeq(TInt)
+    n_nodes = cx.val('n_nodes', TInt)
+    sel = cx.val('selected_nodes', st)
+    cx.spec_env['n_nodes'], cx.spec_env['SEL'] = n_nodes, sel
+    node_of = cx.uf('node_of', [TInt], NKey)
+    crit = cx.uf('crit', [NKey, NKey], TBool)                 # what the criterion answers for two node keys (a pure function)
+    M = cx.heap('M', Box(PairSet))
+    pa, pb, pk = cx.uf('pair_a', [TInt], TInt), cx.uf('pair_b', [TInt], TInt), cx.uf('pair_k', [TInt, TInt], TInt)
+    NP = z3.Int('n_pairs')
+    cx.spec_env['n_pairs'] = SV(TInt, NP)
+
+    def combinations(e, items, r):
+        # assumed contract of itertools.combinations(seq, 2): pairs of positions a < b, every such pair among them
+        # (that each comes once is not needed: asking the criterion twice for one pair gives the same answer)
+        if r != 2:
+            raise EngineError('combinations(_, %r)' % (r,))
+        se = to_z3(items, st)
+        n = st.len(se)
+        p, a, b = z3.Ints('cp ca cb')
+        e.assume(NP >= 0)
+        e.assume(z3.ForAll([p], z3.Implies(z3.And(0 <= p, p < NP), z3.And(0 <= pa(p), pa(p) < pb(p), pb(p) < n))))
+        e.assume(z3.ForAll([a, b], z3.Implies(z3.And(0 <= a, a < b, b < n), z3.And(0 <= pk(a, b), pk(a, b) < NP, pa(pk(a, b)) == a,
+                                                                            pb(pk(a, b)) == b)),
+                           patterns=[pk(a, b)]))
+        return IterV(NP, lambda q: (SV(TInt, st.at(se, pa(_i_(q)))), SV(TInt, st.at(se, pb(_i_(q))))))
+    cx.spec_env['itertools'] = Obj('itertools', combinations=Builtin(combinations, 'itertools.combinations'))
+
+    def zeros(e, shape, dtype=None):
+        # a boolean matrix, seen as the set of index pairs that hold True; numpy.zeros: none does
+        M.e = PairSet.empty()
+        m = Obj('ndarray')
+
+        def getitem(e2, k):
+            if isinstance(k, tuple) and len(k) == 2 and isinstance(k[0], slice):
+                if k[0] != slice(None, None, None):
+                    raise EngineError('matrix[%r, ...]' % (k[0],))
+                cols = to_z3(k[1], st)
+                return Obj('colview', __getitem__=Builtin(lambda e3, rows: sub(cols, to_z3(rows, st)), 'matrix[:, cols][rows]'))
+            if isinstance(k, tuple) and len(k) == 2:
+                return wrap(TBool, z3.Select(M.e, _pair(*k)))
+            raise EngineError('matrix[%r]' % (k,))
+
+        def sub(cols, rows):
+            # matrix[:, cols][rows]: entry (a, b) is the entry (rows[a], cols[b]) of the matrix
+            r = e.fresh_val(PairSet, 'submatrix')
+            a, b = z3.Ints('sa sb')
+            e.assume(z3.ForAll([a, b], z3.Select(r.e, Pair.mk(a, b)) == z3.Select(M.e, Pair.mk(st.at(rows, a), st.at(cols, b))),
+                               patterns=[z3.Select(r.e, Pair.mk(a, b))]))
+            return r
+
+        def setitem(e2, k, v):
+            if not (isinstance(k, tuple) and len(k) == 2):
+                raise EngineError('matrix[%r] = ...' % (k,))
+            M.e = z3.Store(M.e, _pair(*k), to_z3(v, TBool))
+        m.attrs['__getitem__'], m.attrs['__setitem__'] = Builtin(getitem, 'matrix[]'), Builtin(setitem, 'matrix[]=')
+        return m
+    cx.spec_env['np'] = Obj('numpy', zeros=Builtin(zeros, 'numpy.zeros'))
+    graph = Obj('graph', nodes=Obj('NodeView', __len__=Builtin(lambda e: n_nodes, 'len(graph.nodes)')))
+    idx_to_node = Obj('idx_to_node', __getitem__=Builtin(lambda e, i: SV(NKey, node_of(to_z3(i, TInt))), 'idx_to_node[]'))
+    criterion = Builtin(lambda e, g, a, b: wrap(TBool, crit(to_z3(a, NKey), to_z3(b, NKey))), 'criterion')
+    return dict(graph=graph, criterion=criterion, idx_to_node=idx_to_node, selected_nodes=sel)
+
+
+SPEC_BPM = {
+    'nd': "lambda a: node_of(SEL[a])",
+}
+build_pair_matrix = FunctionContract(
+    F, 'build_pair_matrix', 'C15', setup=setup_bpm, spec_defs=SPEC_BPM, spec_env=dict(NKey=NKey),
+    # the selected indices are different from each other (apply_rubber_band's selection is strictly increasing)
+    requires=["forall(lambda a, b: implies(0 <= a and a < b and b < len(SEL), SEL[a] != SEL[b]))"],
+    ensures=[
+        # entry (a, b) of the result, a before b in the selection, is the criterion's answer for the a-th and the b-th selected
+        # node (asked once, in that order); the matrix is symmetric and its diagonal is False
+        # (pair_k(a, b) is the position of the pair in the enumeration of itertools.combinations; it is named in the guard so
+        # that the solver instantiates the enumeration there, and the first clause says the guard holds for every pair)
+        "forall(lambda a, b: implies(0 <= a and a < b and b < len(SEL), 0 <= pair_k(a, b) and pair_k(a, b) < n_pairs))",
+        "forall(lambda a, b: implies(0 <= a and a < b and b < len(SEL) and 0 <= pair_k(a, b), ((a, b) in result) == crit(nd(a), nd(b)) and "
+        "   ((b, a) in result) == crit(nd(a), nd(b))))",
+        "forall(lambda a: implies(0 <= a and a < len(SEL), (a, a) not in result))",
+    ],
+    modifies=['M'],
+    loops={'L1': LoopSpec(inv=[
+        "forall(lambda p: implies(0 <= p and p < _i, ((SEL[pair_a(p)], SEL[pair_b(p)]) in M) == crit(nd(pair_a(p)), nd(pair_b(p))) and "
+        "   ((SEL[pair_b(p)], SEL[pair_a(p)]) in M) == crit(nd(pair_a(p)), nd(pair_b(p)))))",
+        "forall(lambda x: (x, x) not in M)"],
+        modifies=['M'])},
+    canary=[("share_domain[jdx, kdx] = share_domain[kdx, jdx]", "share_domain[jdx, kdx] = share_domain[jdx, kdx]"),
+            ("key_jdx = idx_to_node[jdx]", "key_jdx = idx_to_node[kdx]"),
+            ("share_domain[kdx, jdx] = criterion(graph, key_kdx, key_jdx)", "share_domain[kdx, jdx] = criterion(graph, key_jdx, key_kdx)")],
+)
+CONTRACTS.append(build_pair_matrix)
